@@ -216,7 +216,7 @@ func c31Scenarios(thorough bool) []*explore.Scenario {
 func init() {
 	register(&Prop{ID: "C31", Level: "exploration", Variant: "A", Scenarios: c31Scenarios,
 		Run: func(c *explore.Check, thorough bool) {
-			c.Rule = "reflection-enumerated fields of PubClientHelloMsg, PubServerHelloMsg, CertificateRequestMsgTLS13, PubCipherSuite(TLS13), KeyShare, PskIdentity, TicketKey, KeySharePrivateKeys, FinishedHash: zero, one-hot per field, present-but-empty per slice field, all-set, each field edited on a value that was already converted once (+ all pairs for views of <= 6 fields, for every view in thorough) through public->private->public with deep comparison (functions by pointer, nil vs empty distinguished); every corpus hello (all IDs, custom specs, + variants with an extra empty / boundary / large (5 000 - 40 000 byte) extension spliced in, + server_name replaced by IP literals, a zone id, one letter and 253 characters): Unmarshal.Marshal == input, and parse / clear Raw / marshal / parse gives equal field values. distinct = (type, pattern) / hello"
+			c.Rule = "reflection-enumerated fields of PubClientHelloMsg, PubServerHelloMsg, CertificateRequestMsgTLS13, PubCipherSuite(TLS13), KeyShare, PskIdentity, TicketKey, KeySharePrivateKeys, FinishedHash: zero, one-hot per field, present-but-empty per slice field, all-set, each field edited on a value that was already converted once (+ all pairs for views of <= 6 fields, for every view in thorough) through public->private->public with deep comparison (functions and key objects of other packages by pointer, nil vs empty distinguished); every corpus hello (all IDs, custom specs, + variants with an extra empty / boundary / large (5 000 - 40 000 byte) extension spliced in, + server_name replaced by IP literals, a zone id, one letter and 253 characters): Unmarshal.Marshal == input, and parse / clear Raw / marshal / parse gives equal field values. distinct = (type, pattern) / hello"
 			c.Assumptions = []string{"fields without a private counterpart by design (PubClientHelloMsg.cachedPrivateHello) are listed in inpkg/roundtrip.go"}
 			runAll(c, c31Scenarios(thorough), 0)
 		}})
